@@ -697,7 +697,11 @@ func (gs *GossipSubRouter) Attach(p *PubSub) {
 				time.Sleep(gs.params.DirectConnectInitialDelay)
 			}
 			for p := range gs.direct {
-				gs.connect <- connectInfo{p: p}
+				select {
+				case gs.connect <- connectInfo{p: p}:
+				case <-gs.p.ctx.Done():
+					return
+				}
 			}
 		}()
 	}
@@ -1991,7 +1995,11 @@ func (gs *GossipSubRouter) directConnect() {
 	if len(toconnect) > 0 {
 		go func() {
 			for _, p := range toconnect {
-				gs.connect <- connectInfo{p: p}
+				select {
+				case gs.connect <- connectInfo{p: p}:
+				case <-gs.p.ctx.Done():
+					return
+				}
 			}
 		}()
 	}
